@@ -241,16 +241,13 @@ def slopeNumDen (cells : List Nat) (elevtn distnc : Array Int) (lstsq : Bool) : 
     else (elevtn[cells.head!]! - elevtn[cells.getLast!]!, distnc[cells.head!]! - distnc[cells.getLast!]!)
   else (0, 1)
 
-/-- `segment_slope`. The code tests the mask with `mask[idx1] is False`, an identity test between a
-NumPy bool and the Python constant that is never true: the mask does not take part in the walk
-(`maskUsed = false` is what the interpreter does). -/
+/-- `segment_slope` (same walk as the average / median, mask included) -/
 def segSlope (nxt : Array Nat) (outs : List Nat) (elevtn distnc : Array Int) (lstsq : Bool)
-    (mask : Option (Array Bool)) (maskUsed : Bool) : Option (PerOutlet (Int × Int)) :=
+    (mask : Option (Array Bool)) : Option (PerOutlet (Int × Int)) :=
   let isOut := outletFlags nxt.size outs
-  let mask' := if maskUsed then mask else none
   outs.mapM fun idx0 =>
     if idx0 = nxt.size then some none
-    else (exclWalk nxt isOut mask' (nxt.size + 1) idx0).map fun cells =>
+    else (exclWalk nxt isOut mask (nxt.size + 1) idx0).map fun cells =>
       some (slopeNumDen cells elevtn distnc lstsq)
 
 /-- least `j ≤ bound` with `p j` -/
@@ -259,46 +256,50 @@ def leastIdx (bound : Nat) (p : Nat → Bool) : Option Nat :=
 
 /-! ### `fixed_length_slope` (`subgrid_rivslp(direction="both")`) -/
 
-/-- first `while`: move downstream while the cell lies less than `length/2` below the outlet pixel -/
-def flsDown (ds : Array Nat) (distnc : Array Int) (x0 : Int) : Nat → Nat → Option Nat
+/-- first `while`: move downstream while the cell lies less than `length/2` below the outlet pixel;
+stop at a pit or on a cell that is masked out (`mask[idx0] == False`, the *current* cell) -/
+def flsDown (ds : Array Nat) (distnc : Array Int) (mask : Option (Array Bool)) (x0 : Int) :
+    Nat → Nat → Option Nat
   | 0, _ => none
   | fuel+1, idx =>
     if distnc[idx]! > x0 then
-      if ds[idx]! = idx then some idx else flsDown ds distnc x0 fuel ds[idx]!
+      if ds[idx]! = idx ∨ maskAt mask idx = false then some idx
+      else flsDown ds distnc mask x0 fuel ds[idx]!
     else some idx
 
-/-- second `while`: collect cells along the main upstream path while less than `length/2` above -/
-def flsUp (usMain : Array Nat) (distnc : Array Int) (x1 : Int) : Nat → Nat → Option (List Nat)
+/-- second `while`: collect cells along the main upstream path while less than `length/2` above; stop
+when there is no main upstream cell or it is masked out (`mask[idx_us] == False`) -/
+def flsUp (usMain : Array Nat) (distnc : Array Int) (mask : Option (Array Bool)) (x1 : Int) :
+    Nat → Nat → Option (List Nat)
   | 0, _ => none
   | fuel+1, idx =>
     if distnc[idx]! < x1 then
-      if usMain[idx]! = usMain.size then some [idx]
-      else (flsUp usMain distnc x1 fuel usMain[idx]!).map (idx :: ·)
+      if usMain[idx]! = usMain.size ∨ maskAt mask usMain[idx]! = false then some [idx]
+      else (flsUp usMain distnc mask x1 fuel usMain[idx]!).map (idx :: ·)
     else some [idx]
 
-/-- `fixed_length_slope` (`half = length / 2`, scaled like `distnc`). Its two mask tests are written
-`mask[...] is False` and never fire in the interpreter, so the mask is not a parameter here. -/
+/-- `fixed_length_slope` (`half = length / 2`, scaled like `distnc`) -/
 def fixedLengthSlope (ds usMain : Array Nat) (outs : List Nat) (elevtn distnc : Array Int) (half : Int)
-    (lstsq : Bool) : Option (PerOutlet (Int × Int)) :=
+    (lstsq : Bool) (mask : Option (Array Bool)) : Option (PerOutlet (Int × Int)) :=
   outs.mapM fun idx0 =>
     if idx0 = ds.size then some none
     else
-      match flsDown ds distnc (distnc[idx0]! - half) (ds.size + 1) idx0 with
+      match flsDown ds distnc mask (distnc[idx0]! - half) (ds.size + 1) idx0 with
       | none => none
       | some d =>
-        (flsUp usMain distnc (distnc[idx0]! + half) (ds.size + 1) d).map fun cells =>
+        (flsUp usMain distnc mask (distnc[idx0]! + half) (ds.size + 1) d).map fun cells =>
           some (slopeNumDen cells elevtn distnc lstsq)
 
 /-- declarative version: least stop indices along the iterates of `ds`, then of `usMain` -/
-def fixedLengthCellsSpec (ds usMain : Array Nat) (distnc : Array Int) (half : Int) (s : Nat) :
-    Option (List Nat) :=
+def fixedLengthCellsSpec (ds usMain : Array Nat) (distnc : Array Int) (half : Int)
+    (mask : Option (Array Bool)) (s : Nat) : Option (List Nat) :=
   match leastIdx ds.size (fun j => !(decide (distnc[iterA ds j s]! > distnc[s]! - half)) ||
-      ds[iterA ds j s]! == iterA ds j s) with
+      ds[iterA ds j s]! == iterA ds j s || !(maskAt mask (iterA ds j s))) with
   | none => none
   | some kd =>
     let d := iterA ds kd s
     (leastIdx ds.size (fun j => !(decide (distnc[iterA usMain j d]! < distnc[s]! + half)) ||
-      usMain[iterA usMain j d]! == usMain.size)).map fun ku =>
+      usMain[iterA usMain j d]! == usMain.size || !(maskAt mask usMain[iterA usMain j d]!))).map fun ku =>
       (List.range (ku + 1)).map fun j => iterA usMain j d
 
 /-! ### declarative segment: least stopping index along the iterates of `nxt` -/
